@@ -308,7 +308,11 @@ func (g *G) Concretize(t cadence.Type, d int) cadence.Type {
 	switch p {
 	case cadence.AnyStructType:
 		for i := 0; i < 8; i++ {
-			c := g.valueType(d, len(g.U.Composites))
+			lim := len(g.U.Composites)
+			if d <= 0 {
+				lim = 0 // no composites below the depth budget: keeps values of recursive types finite
+			}
+			c := g.valueType(d, lim)
 			if c == cadence.Type(cadence.AnyStructType) || ContainsResourceKind(c) {
 				continue
 			}
@@ -384,7 +388,12 @@ func ContainsResourceKind(t cadence.Type) bool {
 			}
 		}
 	case *cadence.AttachmentType:
-		return ContainsResourceKind(t.BaseType)
+		switch b := t.BaseType.(type) {
+		case *cadence.ResourceType, *cadence.ResourceInterfaceType:
+			return true
+		case cadence.PrimitiveType:
+			return b == cadence.AnyResourceType
+		}
 	}
 	return false
 }
@@ -401,14 +410,14 @@ func (g *G) Value(t cadence.Type, d int) cadence.Value {
 	case cadence.PrimitiveType:
 		return g.primitiveValue(t, d)
 	case *cadence.OptionalType:
-		if d <= 0 || g.chance(1, 4) {
+		if d <= 0 || g.chance(1, 6) {
 			return cadence.NewOptional(nil)
 		}
 		return cadence.NewOptional(g.Value(t.Type, d-1))
 	case *cadence.VariableSizedArrayType:
 		n := 0
 		if d > 0 {
-			n = g.weighted(2, 3, 3, 1)
+			n = g.weighted(1, 3, 4, 2)
 		}
 		vs := make([]cadence.Value, n)
 		for i := range vs {
@@ -424,7 +433,7 @@ func (g *G) Value(t cadence.Type, d int) cadence.Value {
 	case *cadence.DictionaryType:
 		n := 0
 		if d > 0 {
-			n = g.weighted(2, 2, 3, 2, 1)
+			n = g.weighted(1, 2, 4, 3, 1)
 		}
 		var pairs []cadence.KeyValuePair
 		seen := map[string]bool{}
@@ -474,7 +483,9 @@ func (g *G) Value(t cadence.Type, d int) cadence.Value {
 		if len(cands) == 0 {
 			panic("vgen: intersection static type without a candidate composite")
 		}
-		return g.compositeValue(pick(g, cands), d)
+		// always the lowest-index candidate: intersectionWithValue guarantees it lies
+		// below the owner of the field, so recursive types stay finite
+		return g.compositeValue(cands[0], d)
 	}
 	panic("vgen: cannot build a value of type " + t.ID())
 }
@@ -569,13 +580,20 @@ func isComposite(t cadence.Type) bool {
 func (g *G) AnyValue() (cadence.Value, cadence.Type) {
 	d := g.Cfg.MaxDepth
 	var t cadence.Type
-	switch g.weighted(6, 3, 1) {
+	all := len(g.U.Composites)
+	switch g.weighted(2, 3, 2, 2, 2, 1) {
 	case 0:
 		t = g.ValueType(d)
 	case 1:
-		t = g.U.Composites[g.intn(len(g.U.Composites))]
-	default:
+		t = g.U.Composites[g.intn(all)]
+	case 2:
 		t = cadence.NewDictionaryType(g.hashableType(), g.ValueType(d-1))
+	case 3:
+		t = cadence.NewVariableSizedArrayType(g.ValueType(d - 1))
+	case 4:
+		t = cadence.NewOptionalType(g.ValueType(d - 1))
+	default:
+		t = cadence.NewConstantSizedArrayType(uint(1+g.intn(3)), g.ValueType(d-1))
 	}
 	if at, ok := t.(*cadence.AttachmentType); ok && g.Cfg.NoAttachmentValues {
 		_ = at
